@@ -13,9 +13,13 @@
 //! used by the library's tests and FFI).
 //!
 //! D (deliberately not demanded):
-//!  * decryption when a chunk sum leaves [0, 2^32) (documented to become slow /
-//!    not to terminate); aggregation is only decrypted when both chunk sums
-//!    stay below 2^32;
+//!  * decryption when a chunk sum leaves the range served by the table that is
+//!    used (`BabyStepGiantStep::discrete_log` is documented as linear in l / m,
+//!    i.e. it handles any l but becomes slow): with the 2^16 table aggregates are
+//!    decrypted when both chunk sums stay below 2^32 = m^2; aggregates whose low
+//!    chunks carry (chunk sums up to 2 * (2^32 - 1)) are decrypted with a second
+//!    table of size 2^17 (m^2 = 2^34) and judged against
+//!    sum_i chunk_sum_i * 2^(32 i) computed in u128, provided the total fits u64;
 //!  * decryption with a wrong key or wrong generator (documented not to
 //!    terminate);
 //!  * `index` is documented as "only important for on-chain stuff, not for
@@ -57,6 +61,14 @@ struct Fixture {
 }
 
 const TABLE_SIZE: u64 = 1 << 16;
+/// Table for aggregates whose chunk sums exceed 2^32: every sum of two 32-bit
+/// chunks is below m^2 = 2^34.
+const CARRY_TABLE_SIZE: u64 = 1 << 17;
+
+fn carry_table() -> &'static BabyStepGiantStep<C> {
+    static T: OnceLock<BabyStepGiantStep<C>> = OnceLock::new();
+    T.get_or_init(|| BabyStepGiantStep::new(fixture().ctx.encryption_in_exponent_generator(), CARRY_TABLE_SIZE))
+}
 
 fn fixture() -> &'static Fixture {
     static F: OnceLock<Fixture> = OnceLock::new();
@@ -249,6 +261,52 @@ fn case_aggregate(j: &mut J, r: &mut Rng, cr: &mut CR) -> u64 {
     }
     // commutativity
     j.check("aggregate.commutative", aggregate(&eb, &ea) == agg, || ("aggregate is not commutative".into(), case()));
+    vmon_core::fnv(&to_bytes(&agg))
+}
+
+/// Aggregation where the low chunks carry: the low-chunk sum is >= 2^32, so the
+/// limbs overlap when they are recombined. Model: sum_i chunk_sum_i * 2^(32 i)
+/// in u128 (equals a + b); judged when it fits in u64 and every chunk sum is
+/// below CARRY_TABLE_SIZE^2.
+fn case_aggregate_carry(j: &mut J, r: &mut Rng, cr: &mut CR, forced: Option<(u64, u64)>, want_high_odd: bool) -> u64 {
+    let f = fixture();
+    let (sk, pk) = keypair(cr);
+    let (a, b) = forced.unwrap_or_else(|| {
+        // both low chunks in [2^31, 2^32): the low sum always carries; high chunks small
+        let la = (1u64 << 31) | r.below(1 << 31);
+        let lb = (1u64 << 31) | r.below(1 << 31);
+        let ha = r.below(1 << 12);
+        let mut hb = r.below(1 << 12);
+        if ((ha + hb) & 1 == 1) != want_high_odd {
+            hb += 1;
+        }
+        (join32(la, ha), join32(lb, hb))
+    });
+    let ((al, ah), (bl, bh)) = (split32(a), split32(b));
+    let (lo_sum, hi_sum) = (al + bl, ah + bh);
+    let model: u128 = (lo_sum as u128) + ((hi_sum as u128) << 32);
+    let range = CARRY_TABLE_SIZE * CARRY_TABLE_SIZE;
+    if lo_sum < (1 << 32) || lo_sum >= range || hi_sum >= range || model > u64::MAX as u128 || model != a as u128 + b as u128 {
+        j.sh.hit("aggregate.low_chunk_carry.generator_miss");
+        return 0;
+    }
+    let (ea, _) = encrypt_amount(&f.ctx, &pk, Amount::from_micro_ccd(a), cr);
+    let eb = if r.chance(1, 3) { encrypt_amount_with_fixed_randomness(&f.ctx, Amount::from_micro_ccd(b)) } else { encrypt_amount(&f.ctx, &pk, Amount::from_micro_ccd(b), cr).0 };
+    let agg = aggregate(&ea, &eb);
+    let case = || json!({"a": a, "b": b, "low_chunk_sum": lo_sum, "high_chunk_sum": hi_sum, "table_size": CARRY_TABLE_SIZE, "secret_key": hex(&to_bytes(&sk)), "enc_a": enc_json(&ea), "enc_b": enc_json(&eb), "aggregate": enc_json(&agg)});
+    match vmon_core::catch(|| decrypt_amount(carry_table(), &sk, &agg)) {
+        Ok(d) => {
+            let d = d.micro_ccd();
+            let mut want = model as u64;
+            if broken() {
+                // what `|=` instead of `+=` in the recombination would give
+                want = lo_sum | (hi_sum << 32);
+            }
+            j.sh.hit(if hi_sum & 1 == 1 { "aggregate.low_chunk_carry.high_odd" } else { "aggregate.low_chunk_carry.high_even" });
+            j.check("aggregate.low_chunk_carry.decrypt", d == want, || (format!("decrypt(aggregate(E({:#x}), E({:#x}))) = {:#x}, expected {:#x} (low chunk sum {:#x} carries into the high chunk sum {:#x})", a, b, d, model, lo_sum, hi_sum), case()));
+        }
+        Err(m) => j.inconclusive(format!("decrypt_amount panicked on a carrying aggregate: {}", m)),
+    }
     vmon_core::fnv(&to_bytes(&agg))
 }
 
@@ -678,7 +736,24 @@ pub fn run(ctx: &ChildCtx, sh: &mut Shard) {
                 };
                 ("encdec", case_encdec(&mut j, &mut r, &mut cr, idx % 40 == 20, forced))
             }
-            3 | 4 => ("aggregate", case_aggregate(&mut j, &mut r, &mut cr)),
+            3 | 4 => {
+                // every shard runs the carrying pairs of the property's boundary
+                let carry: Option<(Option<(u64, u64)>, bool)> = match idx {
+                    3 => Some((Some((0x1_FFFF_FFFF, 1)), true)),
+                    4 => Some((Some((0xFFFF_FFFF, 1)), false)),
+                    13 => Some((Some((0xFFFF_FFFF, 0xFFFF_FFFF)), false)),
+                    14 => Some((Some((0x1_FFFF_FFFF, 0xFFFF_FFFF)), true)),
+                    23 | 33 => Some((None, true)),
+                    24 | 34 => Some((None, false)),
+                    _ if idx >= 100 && idx % 100 == 43 => Some((None, true)),
+                    _ if idx >= 100 && idx % 100 == 44 => Some((None, false)),
+                    _ => None,
+                };
+                match carry {
+                    Some((forced, odd)) => ("aggregate_carry", case_aggregate_carry(&mut j, &mut r, &mut cr, forced, odd)),
+                    None => ("aggregate", case_aggregate(&mut j, &mut r, &mut cr)),
+                }
+            }
             5 | 6 => ("transfer", case_transfer(&mut j, &mut r, &mut cr, np)),
             7 | 8 => ("sec_to_pub", case_sec_to_pub(&mut j, &mut r, &mut cr, np)),
             _ => ("chunks", case_chunks(&mut j, &mut r, &mut cr)),
